@@ -9,7 +9,8 @@ open Lean D2V.Drv D2V.Serde
     Spec on the implementation: the graph read back equals the original — ids, hierarchy and order, Children map,
     edge endpoints, and the hash of everything json carries per object / edge (attributes, geometry, index, arrows).
     `svg` lines — the SVG rendered after an in-process layout = the SVG rendered after a layout on the far side of the
-    wire format. -/
+    wire format = the SVG rendered after a layout (and post-processing) by an external plugin binary driven through the
+    real plugin protocol (d2plugin exec.go ↔ serve.go; the plugin is the bundled dagre engine and logs to stderr). -/
 
 def optNat (j : Json) (k : String) : Except String (Option Nat) :=
   match j.getObjVal? k with
@@ -147,7 +148,15 @@ def handleSvg (o : Json) : Except String Verdict := do
   if de != "" && we != "" then return .ok
   if de != we then return .specfalse "wire-layout-fails" s!"in-process: {de} / through the wire format: {we}"
   if d != w then return .specfalse "svg-differs" s!"SVG sha1 in-process {d} vs through the wire format {w}"
-  return .ok
+  -- the real plugin protocol: d2plugin's exec plugin spawning an external plugin binary that also writes to stderr
+  match optS o "execErr", optS o "exec" with
+  | some xe, some x =>
+    if xe != "" then
+      return .specfalse "plugin-exec-fails" s!"layout through the external plugin (d2plugin exec ↔ serve, plugin logs to stderr) fails: {xe.take 300}; in-process layout succeeds"
+    if x != d then
+      return .specfalse "svg-differs-exec" s!"SVG sha1 in-process {d} vs through the external plugin {x}"
+    return .ok
+  | _, _ => return .ok
 
 def handleC26 (j : Json) : Except String Verdict := do
   let k ← getStr j "k"
